@@ -641,7 +641,7 @@ func genPkgLeg() {
 			long = append(long, 65535, 65536)
 		}
 		if thorough {
-			long = append(long, 65534, 65537, 70000, 131072, 1<<20)
+			long = append(long, 65534, 65537, 70000, 131072)
 		}
 		for _, dt := range []asetypes.DataType{asetypes.LONGCHAR, asetypes.LONGBINARY} {
 			for _, n := range long {
@@ -706,7 +706,7 @@ func genPkgLeg() {
 	// findings for TEXT / UNITEXT / NULL), fn 22 judges the part that holds (Value() = the data bytes)
 	tlong := []int{65536}
 	if thorough {
-		tlong = []int{65535, 65536, 70000, 1 << 20}
+		tlong = []int{65535, 65536, 70000, 131072}
 	}
 	for _, dt := range legTxtPtr {
 		ss := legSamples(dt, nrand)
